@@ -185,6 +185,17 @@ theorem more_shapes (a u b v w f : String) (hu : u ≠ "%") (hv : v ≠ "%") (hw
     run (g + 60) .statements [.ident f, .num a] = some (.applyFn (.ident f) (.num a), []) :=
   jux_more a u b v w f hu hv hw g
 
+/-- unary plus and division signs, chained `to` (left-nested), a lambda body extending to the right, and the two meetings of
+unary minus with `^`: `-a^b` is `-(a^b)` (power binds tighter on its left) while `a^-b` is `a^(-b)` -/
+theorem unary_lambda_shapes (a b u v x : String) (hu : u ≠ "%") (hv : v ≠ "%") (hx : x ≠ "%") (g : Nat) :
+    run (g + 60) .statements [.sym .add, .num a] = some (.pos (.num a), []) ∧
+    run (g + 60) .statements [.sym .div, .num a] = some (.udiv (.num a), []) ∧
+    run (g + 60) .statements [.num a, .sym .conv, .ident u, .sym .conv, .ident v] = some (.as_ (.as_ (.num a) (.ident u)) (.ident v), []) ∧
+    run (g + 60) .statements [.ident x, .sym .fn_, .ident x, .sym .add, .num a] = some (.fn_ x (.bop .plus (.ident x) (.num a)), []) ∧
+    run (g + 60) .statements [.sym .sub, .num a, .sym .pow, .num b] = some (.neg (.bop .pow (.num a) (.num b)), []) ∧
+    run (g + 60) .statements [.num a, .sym .pow, .sym .sub, .num b] = some (.bop .pow (.num a) (.neg (.num b)), []) :=
+  shapes_unary_lambda a b u v x hu hv hx g
+
 -- non-vacuity: `a = b = 1 == 2 ; 3 != 4 ; 5` is stmts (stmts (assign a (assign b (1 == 2))) (3 != 4)) 5
 private def c6 (n : String) : Chain 6 := .up (.up (.up (.up (.up (.up (num n))))))
 private def exTop : AsT := .assign "a" (.assign "b" (.plain (.cmp true (c6 "1") (c6 "2"))))
